@@ -232,9 +232,14 @@ def datasets(extra=None):
 def concrete_violation(extra=None):
     warnings.simplefilter('ignore')
     from scipy import stats, integrate
+    earlier = []       # (result, type, tau, theta) of the previous calls: a result belongs to its own X, whatever is selected afterwards
     for X in datasets(extra):
         if X.ndim != 2 or len(X) < 2:
             continue
+        for (r0, ty0, tau0, th0) in earlier:
+            if type(r0) is not ty0 or r0.tau != tau0 or r0.theta != th0:
+                return True, (f'a later select_copula call rewrote an earlier result: {ty0.__name__}(tau={tau0}, theta={th0}) became '
+                              f'{type(r0).__name__}(tau={r0.tau}, theta={r0.theta})')
         tau = stats.kendalltau(X[:, 0], X[:, 1])[0]
         try:
             r = select_copula(X)
@@ -263,6 +268,9 @@ def concrete_violation(extra=None):
                 return True, f'Frank theta {r.theta} is not the calibration of tau {tau}'
         if type(r2) is not type(r) or r2.theta != r.theta or type(r3) is not type(r) or r3.theta != r.theta:
             return True, 'select_copula is not a deterministic function of X / the deprecated class method differs'
+        if r is r2 or r is r3 or any(r is e[0] for e in earlier):
+            return True, 'select_copula hands out the same model object for different calls (results alias each other)'
+        earlier.append((r, type(r), r.tau, r.theta))
     return False, ''
 
 
